@@ -11,7 +11,7 @@ _HOOKS = {'services/keepstore/verif_points.go': 'harness/keepstore_c02/hooks/ver
 KEYS['keepstore_c02'] = {'pkg': 'services/keepstore', 'hooks': _HOOKS, 'generated': _GEN}
 
 CHECKS['C02'] = {
-    'ready': False,
+    'ready': True,
     'level': 'fault_enumeration',
     'exhaustive': False,
     'rule': 'rapid generates a case = (block size class relative to the write chunk, chunk size, pre-state of the target hash on each of '
